@@ -468,6 +468,9 @@ func (g *tGen) columns(fs []*tField, pre string, keyName string, out *[]colSpec)
 			g.columns(f.sub, pre+f.name, f.key, out)
 		default: // horizontal list / map
 			n := 1 + g.r.Intn(3)
+			if g.r.Intn(10) == 0 {
+				n = 10 + g.r.Intn(3) // two-digit element numbers
+			}
 			for i := 1; i <= n; i++ {
 				p := pre + f.name + strconv.Itoa(i)
 				if f.kind != "m" || f.incell {
